@@ -2863,6 +2863,7 @@ class Array:
             first_cl = np.array([cl[0] for cl in combine_legs])
             new_axes = [(np.sum(non_combined_legs < a) + np.sum(first_cl < a)) for a in first_cl]
         else:  # test compatibility
+            new_axes = list(new_axes)  # copy: don't modify the argument, allow tuples
             if len(new_axes) != len(combine_legs):
                 raise ValueError('wrong len of `new_axes`')
             new_rank = len(combine_legs) + len(non_combined_legs)
